@@ -761,6 +761,15 @@ func (w *WalletManager) NewAddress(addrClass uint16) (string, error) {
 
 	var address string
 	err := mwdb.Update(w.db, func(tx mwdb.DBTransaction) error {
+		// A wallet stays selected while it is being removed in the background.
+		// An address issued now would leave a record behind after the removal.
+		ws, err := w.syncStore.GetWalletStatus(tx, am.Name())
+		if err != nil {
+			return err
+		}
+		if ws.IsRemoved() {
+			return ErrWalletUnready
+		}
 		mas, err := w.ksmgr.NextAddresses(tx, w.chainFetcher.CheckScriptHashUsed, false, 1, w.config.Wallet.Settings.AddressGapLimit, addrClass)
 		if err != nil {
 			logging.CPrint(logging.ERROR, "failed to nextAddress", logging.LogFormat{
